@@ -1,11 +1,12 @@
 (* Proofs/ApprovalReports: the viewer's description of a weekly REPORT
-   (newTelemetryReport: summary from the identity and the Counters map).
-   For every configuration and every program of a report whose Counters keys
-   are plain names (every report the uploader writes): the set verdict is the
-   documented one and the listed names are exactly the plain counters the
-   uploader drops - no approved item is ever called excluded.  The Stacks of a
-   report are not examined: an unapproved stack is not mentioned (finding 19,
-   witness below); that is the only failure the oracle can report on the model. *)
+   (newTelemetryReport after fix a1becfe: summary from the identity, the
+   Counters and the Stacks).  For every configuration and every program of a
+   report whose Counters keys are plain names and whose Stacks keys are stack
+   names (every report the uploader writes, C01_aggregate_wf): the set
+   verdict is the documented one and the listed names are exactly the
+   displayed names of the counters AND stack counters the uploader drops; no
+   approved item is ever called excluded; the executable report oracle
+   reports nothing on the model. *)
 From Coq Require Import List ZArith NArith Bool Lia.
 From Tele Require Import Lib.Bytes Lib.Str Lib.Assoc Lib.Calendar Model.Config Model.ApprovalSpec Model.Report
   Model.Approval Proofs.ConfigFacts Proofs.AggregateFacts Proofs.ReportFacts Proofs.ApprovalFacts.
@@ -13,93 +14,104 @@ Import ListNotations.
 Open Scope N_scope.
 
 Definition plain_keys (p : ident * body) : Prop :=
-  forall k, In k (map fst (fst (snd p))) -> is_stack k = false.
+  (forall k, In k (map fst (fst (snd p))) -> is_stack k = false) /\
+  (forall k, In k (map fst (snd (snd p))) -> is_stack k = true).
+
+(* the items of a program of a report: counter names, then stack names *)
+Definition report_items (p : ident * body) : list bytes :=
+  map fst (fst (snd p)) ++ map fst (snd (snd p)).
 
 Lemma summary_names_match l : summary_names (match l with [] => SClean | l' => SCounters l' end) = l.
 Proof. destruct l; reflexivity. Qed.
 
-(* the names listed for a program of a report: the plain counters that are not approved *)
+Lemma filter_all_true {A} (f : A -> bool) l : (forall x, In x l -> f x = true) -> filter f l = l.
+Proof.
+  induction l as [|a l IH]; intro H; [reflexivity|]. cbn [filter].
+  rewrite (H a (or_introl eq_refl)), IH; [reflexivity|]. intros x Hx. apply H. right. exact Hx.
+Qed.
+
+(* with disjoint key sets the single map is just Counters followed by Stacks *)
+Lemma report_program_counts p : plain_keys p ->
+  map fst (f_counts (report_program_file p)) = report_items p.
+Proof.
+  intros [Hc Hs]. unfold report_program_file, report_items. cbn [f_counts]. rewrite map_map. cbn [fst].
+  rewrite map_app. f_equal. f_equal. apply filter_all_true. intros [k v] Hin. cbn [fst].
+  apply negb_true_iff. destruct (memb k (map fst (snd (snd p)))) eqn:E; [|reflexivity].
+  apply memb_In in E. apply Hs in E. rewrite (Hc k) in E; [discriminate|]. apply in_map_iff. exists (k, v). auto.
+Qed.
+
+Lemma dropped_names_keys u prog (l : list (bytes * N)) :
+  map (fun kv : bytes * N => display_name (fst kv))
+      (filter (fun kv : bytes * N => negb (uploader_keeps (new_config u) 0 prog (fst kv))) l) =
+  map display_name (filter (fun k => negb (approved_itemb u prog k)) (map fst l)).
+Proof.
+  induction l as [|[k v] l IH]; [reflexivity|]. cbn [map filter fst].
+  destruct (deciders_item_agree u prog k) as [-> _].
+  destruct (approved_itemb u prog k); cbn [negb map fst]; [exact IH | f_equal; exact IH].
+Qed.
+
+(* the names the report view lists: the displayed names (a stack's title) of
+   exactly the counters and stack counters that are not approved *)
 Theorem viewer_report_names u p :
   approved_build u (fst p) -> plain_keys p ->
   summary_names (viewer_report_summary (new_config u) p) =
-  filter (fun k => negb (approved_counterb u (id_program (fst p)) k)) (map fst (fst (snd p))).
+  map display_name (filter (fun k => negb (approved_itemb u (id_program (fst p)) k)) (report_items p)).
 Proof.
   intros Ha Hp. unfold viewer_report_summary.
-  pose proof (viewer_items_iff_uploader u (report_program_file p) Ha) as [Hs _]. cbv zeta in Hs.
-  cbn [report_program_file f_ident f_counts] in Hs. rewrite Hs.
-  rewrite summary_names_match. clear Hs.
-  unfold plain_keys in Hp. induction (fst (snd p)) as [|[k v] l IH]; [reflexivity|].
-  cbn [map filter fst] in *.
-  assert (Hk : is_stack k = false) by (apply Hp; left; reflexivity).
-  assert (Hkeep : uploader_keeps (new_config u) 0 (id_program (fst p)) k = approved_counterb u (id_program (fst p)) k).
-  { destruct (deciders_item_agree u (id_program (fst p)) k) as [-> _]. unfold approved_itemb. rewrite Hk. reflexivity. }
-  rewrite Hkeep. destruct (approved_counterb u (id_program (fst p)) k); cbn [negb map fst].
-  - apply IH. intros k' Hk'. apply Hp. right. exact Hk'.
-  - unfold display_name at 1. rewrite Hk. f_equal. apply IH. intros k' Hk'. apply Hp. right. exact Hk'.
+  assert (Hid : f_ident (report_program_file p) = fst p) by reflexivity.
+  pose proof (viewer_items_iff_uploader u (report_program_file p)) as Hs. rewrite Hid in Hs.
+  destruct (Hs Ha) as [Hsum _]. cbv zeta in Hsum. rewrite Hsum, summary_names_match, dropped_names_keys.
+  rewrite (report_program_counts p Hp). reflexivity.
 Qed.
 
 Lemma viewer_report_set u p :
   summary_excludes_set (viewer_report_summary (new_config u) p) = negb (approved_buildb u (fst p)).
 Proof.
-  unfold viewer_report_summary. rewrite viewer_set_iff. cbn [report_program_file f_ident].
-  rewrite build_ok_approvedb. reflexivity.
+  unfold viewer_report_summary. rewrite viewer_set_iff.
+  change (f_ident (report_program_file p)) with (fst p). rewrite build_ok_approvedb. reflexivity.
 Qed.
 
-(* the report oracle on the model: nothing, except the omitted-stack class *)
-Theorem viewer_report_check_model u p : plain_keys p ->
-  forall cl, In cl (viewer_report_check u p (viewer_report_summary (new_config u) p)) ->
-  cl = AViewerReportStackOmitted /\ approved_buildb u (fst p) = true /\
-  exists k, In k (map fst (snd (snd p))) /\ approved_stackb u (id_program (fst p)) k = false.
+(* never a false claim; nothing dropped is left out *)
+Theorem viewer_report_lists_dropped u p : approved_build u (fst p) -> plain_keys p ->
+  (forall n, In n (summary_names (viewer_report_summary (new_config u) p)) ->
+             exists k, In k (report_items p) /\ display_name k = n /\ approved_itemb u (id_program (fst p)) k = false) /\
+  (forall k, In k (report_items p) -> approved_itemb u (id_program (fst p)) k = false ->
+             In (display_name k) (summary_names (viewer_report_summary (new_config u) p))).
 Proof.
-  intros Hp cl. unfold viewer_report_check. cbv zeta. rewrite viewer_report_set, Bool.eqb_reflx. cbn [app].
-  destruct (approved_buildb u (fst p)) eqn:Ea; [|intros []].
-  rewrite (viewer_report_names u p (proj1 (approved_buildb_spec u _) Ea) Hp).
-  set (names := filter (fun k => negb (approved_counterb u (id_program (fst p)) k)) (map fst (fst (snd p)))).
+  intros Ha Hp. rewrite (viewer_report_names u p Ha Hp). split.
+  - intros n Hn. apply in_map_iff in Hn as [k [Hd Hk]]. apply filter_In in Hk as [Hin Hna].
+    apply negb_true_iff in Hna. eauto.
+  - intros k Hin Hna. apply in_map. apply filter_In. rewrite Hna. auto.
+Qed.
+
+(* the report oracle on the model: nothing *)
+Theorem viewer_report_check_model u p : plain_keys p ->
+  viewer_report_check u p (viewer_report_summary (new_config u) p) = [].
+Proof.
+  intros Hp. unfold viewer_report_check. cbv zeta. rewrite viewer_report_set, Bool.eqb_reflx. cbn [app].
+  destruct (approved_buildb u (fst p)) eqn:Ea; [|reflexivity].
+  pose proof (proj1 (approved_buildb_spec u _) Ea) as Hb.
+  destruct (viewer_report_lists_dropped u p Hb Hp) as [Hsound Hcomplete].
+  destruct Hp as [Hc Hs].
+  set (names := summary_names (viewer_report_summary (new_config u) p)) in *.
   assert (H1 : forallb (fun n => existsb (fun k => beq k n && negb (approved_counterb u (id_program (fst p)) k))
                                           (map fst (fst (snd p))) ||
                                  existsb (fun k => beq (stack_title k) n && negb (approved_stackb u (id_program (fst p)) k))
                                           (map fst (snd (snd p)))) names = true).
-  { apply forallb_forall. intros n Hn. subst names. apply filter_In in Hn as [Hin Hna].
-    apply orb_true_iff. left. apply existsb_exists. exists n. rewrite beq_refl. auto. }
+  { apply forallb_forall. intros n Hn. destruct (Hsound n Hn) as [k [Hin [Hd Hna]]].
+    unfold report_items in Hin. apply in_app_iff in Hin. apply orb_true_iff.
+    unfold display_name, approved_itemb in *. destruct Hin as [Hin|Hin].
+    - rewrite (Hc k Hin) in *. left. apply existsb_exists. exists k. subst n. rewrite beq_refl, Hna. auto.
+    - rewrite (Hs k Hin) in *. right. apply existsb_exists. exists k. subst n. rewrite beq_refl, Hna. auto. }
   assert (H2 : forallb (fun k => approved_counterb u (id_program (fst p)) k || memb k names)
                        (map fst (fst (snd p))) = true).
   { apply forallb_forall. intros k Hk. destruct (approved_counterb u (id_program (fst p)) k) eqn:E; [reflexivity|].
-    cbn [orb]. apply memb_In. subst names. apply filter_In. rewrite E. auto. }
-  rewrite H1, H2. cbn [app].
-  destruct (forallb (fun k => approved_stackb u (id_program (fst p)) k || memb (stack_title k) names)
-                    (map fst (snd (snd p)))) eqn:E3; [intros []|].
-  intros [<-|[]]. split; [reflexivity|]. split; [reflexivity|].
-  destruct (existsb (fun k => negb (approved_stackb u (id_program (fst p)) k)) (map fst (snd (snd p)))) eqn:Ex.
-  - apply existsb_exists in Ex as [k [Hk Hn]]. apply negb_true_iff in Hn. eauto.
-  - exfalso. assert (Ht : forallb (fun k => approved_stackb u (id_program (fst p)) k || memb (stack_title k) names)
-                                  (map fst (snd (snd p))) = true).
-    { apply forallb_forall. intros k Hk. destruct (approved_stackb u (id_program (fst p)) k) eqn:Es; [reflexivity|].
-      assert (Hc : existsb (fun k => negb (approved_stackb u (id_program (fst p)) k)) (map fst (snd (snd p))) = true)
-        by (apply existsb_exists; exists k; rewrite Es; auto). congruence. }
-    congruence.
-Qed.
-
-(* in particular no approved stack (nor any approved item) is ever called excluded by the report view *)
-Theorem viewer_report_no_false_claim u p n :
-  approved_build u (fst p) -> plain_keys p ->
-  In n (summary_names (viewer_report_summary (new_config u) p)) ->
-  In n (map fst (fst (snd p))) /\ approved_counterb u (id_program (fst p)) n = false.
-Proof.
-  intros Ha Hp Hn. rewrite (viewer_report_names u p Ha Hp) in Hn. apply filter_In in Hn as [H1 H2].
-  apply negb_true_iff in H2. auto.
-Qed.
-
-From Coq Require Import String.
-Local Open Scope string_scope.
-Local Open Scope list_scope.
-Local Open Scope N_scope.
-(* finding 19: an unapproved stack counter of a local report is not mentioned by the report view *)
-Theorem viewer_report_stack_refuted :
-  exists u p, approved_buildb u (fst p) = true /\
-    (exists k v, In (k, v) (snd (snd p)) /\ approved_stackb u (id_program (fst p)) k = false) /\
-    viewer_report_summary (new_config u) p = SClean.
-Proof.
-  exists (w_cfg [mkCC (s2b "foo") bits_one] []), (w_id, ([(s2b "foo", 3%Z)], [(s2b "stk" ++ [10] ++ s2b "f", 7%Z)])).
-  split; [vm_compute; reflexivity|]. split; [|vm_compute; reflexivity].
-  exists (s2b "stk" ++ [10] ++ s2b "f"), 7%Z. split; [left; reflexivity | vm_compute; reflexivity].
+    cbn [orb]. apply memb_In. assert (Hi : In k (report_items p)) by (apply in_app_iff; left; exact Hk).
+    pose proof (Hcomplete k Hi) as H. unfold approved_itemb, display_name in H. rewrite (Hc k Hk) in H. auto. }
+  assert (H3 : forallb (fun k => approved_stackb u (id_program (fst p)) k || memb (stack_title k) names)
+                       (map fst (snd (snd p))) = true).
+  { apply forallb_forall. intros k Hk. destruct (approved_stackb u (id_program (fst p)) k) eqn:E; [reflexivity|].
+    cbn [orb]. apply memb_In. assert (Hi : In k (report_items p)) by (apply in_app_iff; right; exact Hk).
+    pose proof (Hcomplete k Hi) as H. unfold approved_itemb, display_name in H. rewrite (Hs k Hk) in H. auto. }
+  rewrite H1, H2, H3. reflexivity.
 Qed.
